@@ -94,7 +94,7 @@ func checkC04(c *Ctx, r *Report) {
 	defer everyFieldHandledRule(c, r)
 	defer validatorSiblingsRule(c, r)
 	r.Assumption("custom validators registered with RegisterValidator and Validate() methods are user code; the rule decides that they are called, not what they accept")
-	r.Assumption("kind waiver: no built-in validator inspects struct values or Config-convertible values; a pointer to a map passes every built-in validator when non-nil")
+	r.Assumption("kind waiver: no built-in validator inspects struct values or Config-convertible values; a pointer is looked through by every built-in validator (R04i)")
 	runV := c.Func("", "runValidators")
 	tryV := c.Func("", "tryValidate")
 	tryRec := c.Func("", "tryRecursiveValidate")
@@ -239,6 +239,7 @@ func checkC04(c *Ctx, r *Report) {
 
 	durationUnitRule(c, r)
 	elementCoverageRule(c, r)
+	keptEntriesRule(c, r)
 	validatedIsReturnedRule(c, r)
 	// ---- R04d ----
 	r.Rule("R04d", "parseValidatorTags is called only by accessField on the struct tag named by options.validatorTag; every fieldOptions built in reifyStruct / validateStruct takes its validators from accessField's result", 4)
@@ -508,9 +509,8 @@ func calledName(call *ssa.Call) string {
 
 // c04Exception: one named construct plus a reason (DESIGN §1 rule 4).
 func c04Exception(fn, what string) string {
-	if fn == "ucfg.reifyValue" && what == "map" {
-		return "reifyValue's map branch (a new map behind a pointer, or as an element) unpacks through reifyInto without the field's validators: read and accepted — the value is a freshly made non-nil map and the only way a field with validators reaches this branch is through a pointer to a map, on which every built-in validator is a no-op (they do not look through pointers to maps); map fields themselves go through reifyMergeValue -> reifyMap with the validators"
-	}
+	// (the one exception there was — reifyValue's map branch unpacking through reifyInto without the field's
+	// validators — went away with the repair 04c93da: the branch forwards the validators to reifyMap now)
 	return ""
 }
 
@@ -1102,4 +1102,177 @@ func everyFieldHandledRule(c *Ctx, r *Report) {
 		r.Check(!round, "R04j", c.FnName(rs), "every field handled", c.Pos(call.Pos()), "no way back to the loop head around the unpack / validate routines",
 			"an iteration of reifyStruct's field loop can go on to the next field without handing this one to reifyGetField, reifyInto, reifyMergeValue or tryRecursiveValidate: for that shape of configuration the field's validate tag and Validate() are never asked, and Unpack succeeds with a value they reject")
 	}
+}
+
+// keptEntriesRule (R04k): the map reifyMap returns holds the entries the configuration names — each comes out of
+// reifyValue / reifyMergeValue, which validate what they produce — and the entries that were in the target before and
+// that the configuration does not name. The latter are part of the result like the kept elements of a list (R04f), so
+// a successful return must lie behind a pass over to.MapKeys() in which every iteration either validates
+// to.MapIndex(key) through tryRecursiveValidate or takes the branch of a successful lookup of the key among the
+// configuration's settings (the entry was unpacked a moment ago). The branch for a configuration without settings
+// hands the whole map to tryRecursiveValidate instead. (Found missing by the round-9 hunt: repaired in 4069967.)
+func keptEntriesRule(c *Ctx, r *Report) {
+	r.Rule("R04k", "every successful return of reifyMap lies behind tryRecursiveValidate of the whole map or behind a loop over to.MapKeys() in which every iteration validates to.MapIndex(key) or finds the key among the configuration's settings", 3)
+	fn := c.TryFunc("", "reifyMap")
+	if fn == nil {
+		r.add("R04k", "ucfg.reifyMap", "anchor", "-", Undecided, true, "ANCHOR-MISSING: reifyMap")
+		return
+	}
+	name := c.FnName(fn)
+	var to ssa.Value
+	for _, p := range fn.Params {
+		if p.Type().String() == "reflect.Value" {
+			to = p
+		}
+	}
+	if to == nil {
+		r.add("R04k", name, "anchor", c.Pos(fn.Pos()), Undecided, true, "reifyMap has no reflect.Value parameter")
+		return
+	}
+	trv := c.Func("", "tryRecursiveValidate")
+	// validation sites: of the whole map, and of one kept entry
+	whole := map[*ssa.BasicBlock]bool{}
+	var entrySites []ssa.CallInstruction
+	for _, ci := range CallsTo(fn, trv, false) {
+		a := ci.Common().Args[0]
+		if sameReflectValue(a, to) {
+			whole[ci.Block()] = true
+			continue
+		}
+		mi, ok := a.(*ssa.Call)
+		if !ok {
+			continue
+		}
+		if g := mi.Call.StaticCallee(); g == nil || g.String() != "(reflect.Value).MapIndex" || !sameReflectValue(mi.Call.Args[0], to) {
+			continue
+		}
+		if m := mapKeysOrigin(mi.Call.Args[1]); m != nil && sameReflectValue(m, to) {
+			entrySites = append(entrySites, ci)
+		}
+	}
+	// (1) the pass over the kept entries: per site, every iteration validates or finds the key named
+	headers := map[*ssa.BasicBlock]bool{}
+	for i, ci := range entrySites {
+		key := ci.Common().Args[0].(*ssa.Call).Call.Args[1]
+		lp := loopOf(fn, ci.Block())
+		what := fmt.Sprintf("pass over kept entries#%d", i+1)
+		if lp == nil {
+			r.Check(false, "R04k", name, what, c.Pos(ci.Pos()), "", "tryRecursiveValidate(to.MapIndex(key)) is not in a loop: one entry at most is validated")
+			continue
+		}
+		h := loopHeader(lp)
+		body := key.(ssa.Instruction).Block()
+		// forbidden edges: the successful edge of a lookup of this key among the settings
+		type edge struct{ from, to *ssa.BasicBlock }
+		skip := map[edge]bool{}
+		for b := range lp {
+			ifi, ok := lastInstr(b).(*ssa.If)
+			if !ok {
+				continue
+			}
+			cond, pos := ifi.Cond, true
+			if u, isNot := cond.(*ssa.UnOp); isNot && u.Op == token.NOT {
+				cond, pos = u.X, false
+			}
+			ex, ok := cond.(*ssa.Extract)
+			if !ok || ex.Index != 1 {
+				continue
+			}
+			lk, ok := ex.Tuple.(*ssa.Lookup)
+			if !ok || !lk.CommaOk {
+				continue
+			}
+			if !derivesFromDict(lk.X) || !keyTextOf(lk.Index, key) {
+				continue
+			}
+			if pos {
+				skip[edge{b, b.Succs[0]}] = true
+			} else {
+				skip[edge{b, b.Succs[1]}] = true
+			}
+		}
+		// can an iteration get from the block that reads the key back to the header around the validation?
+		seen := map[*ssa.BasicBlock]bool{body: true}
+		work := []*ssa.BasicBlock{body}
+		around := false
+		for len(work) > 0 && !around {
+			x := work[len(work)-1]
+			work = work[:len(work)-1]
+			if x == ci.Block() {
+				continue
+			}
+			for _, s := range LiveSuccsOrAll(x) {
+				if skip[edge{x, s}] || !lp[s] {
+					continue // leaving the loop is an exit (checked below), not a skipped entry
+				}
+				if s == h {
+					around = true
+					break
+				}
+				if !seen[s] {
+					seen[s] = true
+					work = append(work, s)
+				}
+			}
+		}
+		if ob := r.Check(!around, "R04k", name, what, c.Pos(ci.Pos()),
+			fmt.Sprintf("every iteration validates to.MapIndex(key) or takes one of %d edge(s) on which the key was found among the settings", len(skip)),
+			"an iteration of the loop over to.MapKeys() can reach the next key without validating the entry and without having found the key among the configuration's settings: a kept entry that breaks its validators is returned"); ob != nil && !around {
+			headers[h] = true
+		}
+	}
+	// (2) every successful return lies behind the whole-map validation or behind a complete pass
+	avoid := map[*ssa.BasicBlock]bool{}
+	for b := range whole {
+		avoid[b] = true
+	}
+	for b := range headers {
+		avoid[b] = true
+	}
+	n := 0
+	for _, ret := range Returns(fn) {
+		if len(ret.Results) == 0 || nilness(RetVal(ret, 0), ret.Block(), 0) == 1 || len(ret.Block().Preds) == 0 && ret.Block() != fn.Blocks[0] {
+			continue // a failing return
+		}
+		n++
+		entry := fn.Blocks[0]
+		reach := !avoid[entry] && (entry == ret.Block() || reachableAvoiding(entry, ret.Block(), avoid))
+		if avoid[ret.Block()] {
+			reach = false
+		}
+		r.Check(!reach, "R04k", name, fmt.Sprintf("successful return#%d behind a validation of the kept entries", n), c.Pos(ret.Pos()),
+			fmt.Sprintf("reachable only through tryRecursiveValidate(to) [%d site(s)] or the header of a complete pass over to.MapKeys() [%d]", len(whole), len(headers)),
+			"reifyMap can return successfully without having validated the entries the configuration does not name: neither the whole map went through tryRecursiveValidate nor is there a complete pass over to.MapKeys() in front of this return (a pre-filled entry that breaks its validators is returned; the list routine reifyDoArray validates the elements it keeps)")
+	}
+	r.Analysed["reifyMap: validations of a kept entry"] = len(entrySites)
+}
+
+// LiveSuccsOrAll: the successors of a block (no edge is dropped here; the name marks the place where an
+// edge-sensitive refinement would go).
+func LiveSuccsOrAll(b *ssa.BasicBlock) []*ssa.BasicBlock { return b.Succs }
+
+// derivesFromDict: the map is what a dict() call returned (the named settings of a configuration).
+func derivesFromDict(v ssa.Value) bool {
+	for _, s := range Sources(v) {
+		call, ok := s.(*ssa.Call)
+		if !ok || calledName(call) != "dict" {
+			return false
+		}
+	}
+	return len(Sources(v)) > 0
+}
+
+// keyTextOf: idx is the text of the reflect key: key.String(), possibly converted.
+func keyTextOf(idx, key ssa.Value) bool {
+	for _, s := range Sources(idx) {
+		call, ok := s.(*ssa.Call)
+		if !ok {
+			return false
+		}
+		g := call.Call.StaticCallee()
+		if g == nil || g.String() != "(reflect.Value).String" || !sameReflectValue(call.Call.Args[0], key) {
+			return false
+		}
+	}
+	return len(Sources(idx)) > 0
 }
